@@ -12,7 +12,7 @@ structure SubstPre (h : NNet) (c : Nat) (m : NNet) (sh : Shape) (dn : Nat) (map 
   hc : c < h.net.nodes.size
   hio : c ∉ h.net.io
   shape : implShape m = some sh
-  des : sh.des = some dn
+  des : dn < m.net.nodes.size → sh.des = some dn
   -- side conditions on the implementation
   dnNotPort : dn ∉ m.net.io
   ioNodup : m.net.io.Nodup
@@ -34,7 +34,7 @@ structure SubstPre (h : NNet) (c : Nat) (m : NNet) (sh : Shape) (dn : Nat) (map 
   mapDom : ∀ j, j < m.net.nodes.size → ((map.getD j none).isSome ↔
     (j ∉ m.net.io ∨ (0 < (m.net.node j).ins.length ∧ 0 < (m.net.node j).outs.length) ∨
       ((m.net.node j).ins.length = 0 ∧ 1 < (m.net.node j).outs.length)))
-  mapDn : map.getD dn none = some c
+  mapDn : dn < m.net.nodes.size → map.getD dn none = some c
   kind' : ∀ j x, map.getD j none = some x →
     (h'.net.node x).kind = if j ∈ m.net.io then "__fork__" else (m.net.node j).kind
   -- lines
